@@ -36,7 +36,7 @@ func init() {
 		Assumptions: []string{"layouts are those of gc/amd64 (types.SizesFor), cross-checked against reflect on the machine that runs the check",
 			"checkptr alone is not sufficient (an overrun inside the allocator's size class is not reported), which is why the static invariant is the deciding one"},
 		Bound: func(string) string {
-			return "complete in both tiers: every conversion site x field; every helper x source x form x shared property; 14 foreign types x 14 x 14 helper pairs x {To, On}"
+			return "complete in both tiers: every conversion site x field; every helper x source x form x shared property; 14 foreign types x 14 x 14 helper pairs x {To, On}; families added after round 5: DESIGN.md 8.11"
 		},
 		Pre: c08Pre,
 		WorkerBinary: func(p *engine.Parent) string {
@@ -405,14 +405,6 @@ func c08Run(c *engine.Ctx) {
 						if via == "On" {
 							marker := ap.NaturalLanguageValues{{Ref: "-", Value: ap.Content("written before the callback failed")}}
 							sentinel := fmt.Errorf("callback failed after writing")
-							var nameField reflect.Value
-							gotErr := h.on(it, func(p any) {
-								nameField = reflect.ValueOf(p).Elem().FieldByName("Name")
-								if nameField.IsValid() {
-									nameField.Set(reflect.ValueOf(marker))
-								}
-							})
-							_ = gotErr
 							errAfter := c08OnErr(h, it, func(p any) {
 								f := reflect.ValueOf(p).Elem().FieldByName("Name")
 								if f.IsValid() {
